@@ -84,8 +84,12 @@ def configs(tier):
 
 # ---------------------------------------------------------------------------------------------------------------------
 # grids
-IN_MASTER = [8e6, 10e6, 12e6, 16e6, 19.2e6, 25e6, 27e6, 33.333e6, 48e6, 50e6, 74.25e6, 100e6, 125e6, 156.25e6, 200e6,
-             250e6, 322.265625e6, 400e6, 500e6, 622.08e6, 800e6]
+# typical board / transceiver reference clocks, most common first: a grid takes the first n_in inside the declared range
+IN_TYPICAL = [100e6, 25e6, 50e6, 125e6, 12e6, 200e6, 27e6, 48e6, 74.25e6, 156.25e6, 400e6, 16e6, 33.333e6, 250e6, 10e6,
+              322.265625e6, 622.08e6, 19.2e6, 8e6, 500e6, 800e6]
+# most common first: the small sub-grids used for 2, 3 and more outputs take the first k inside the reachable span
+OUT_TYPICAL = [100e6, 50e6, 200e6, 25e6, 125e6, 400e6, 75e6, 12e6, 150e6, 48e6, 300e6, 10e6, 250e6, 16e6, 40e6, 600e6, 800e6,
+               500e6, 5e6]
 OUT_ROUND = [5e6, 10e6, 12e6, 16e6, 25e6, 40e6, 48e6, 50e6, 75e6, 100e6, 125e6, 150e6, 200e6, 250e6, 300e6, 400e6, 500e6,
              600e6, 800e6]
 OUT_AWKWARD = [24.576e6, 74.25e6, 33.333e6, 148.5e6, 11.2896e6, 133.333e6]
@@ -112,12 +116,17 @@ def uniq(xs):
 
 
 class Grid:
-    """sizes per tier: inputs, then the output grid sizes used for n = 1, 2, 3 and n = max outputs"""
-    SIZES = dict(quick=(5, 7, 5, 3, 2), thorough=(10, 16, 10, 6, 3))
+    """sizes per tier: typical inputs inside the declared range (both ends and the two points just outside are always
+    added), output grid sizes for n = 1, 2, 3 and n >= 4 outputs, and `cut`: requests with >= 3 outputs are only put at
+    input frequencies <= cut (a refused many-output request at a high input frequency costs the helper 0.2-0.4 s)"""
+    SIZES = dict(quick=dict(n_in=2, n1=7, n2=4, n3=3, nm=2, cut2=450e6, cut=260e6),
+                 thorough=dict(n_in=8, n1=16, n2=8, n3=4, nm=2, cut2=None, cut=450e6))
 
     def __init__(self, fam, pll, tier, sizes=None):
         self.fam, self.tier = fam, tier
-        n_in, n1, n2, n3, nm = sizes or self.SIZES[tier]
+        z = dict(self.SIZES[tier])
+        z.update(sizes or {})
+        self.z = z
         probe = fam.model(pll, Req(100e6, [(100e6, 0, 0)]))
         dv = probe.outs[0].divs
         self.reach = (float(probe.src_rng[0] / dv.hi()), float(probe.src_rng[1] / dv.lo()))     # achievable output span
@@ -125,17 +134,18 @@ class Grid:
         out_rng = self.output_range(pll)
         lo_o = max(self.reach[0], out_rng[0]) if out_rng else self.reach[0]
         hi_o = min(self.reach[1], out_rng[1]) if out_rng else self.reach[1]
-        inside = [f for f in IN_MASTER if in_rng[0] <= f <= in_rng[1]]
-        core_in = spread([f for f in inside if f not in (in_rng[0], in_rng[1])], n_in)
-        self.inputs = uniq([in_rng[0] * (1 - 1e-3), in_rng[0]] + core_in + [in_rng[1], in_rng[1] * (1 + 1e-3)])
+        hi_o = min(hi_o, 2.4e9)                        # S6DCM declares no real VCO ceiling (1e16)
+        core_in = [f for f in IN_TYPICAL if in_rng[0] < f < in_rng[1]][:z["n_in"]]
+        self.inputs = uniq([in_rng[0] * (1 - 1e-3), in_rng[0]] + sorted(core_in) + [in_rng[1], in_rng[1] * (1 + 1e-3)])
         cand = [f for f in OUT_ROUND if lo_o < f < hi_o]
         awk = [f for f in OUT_AWKWARD if lo_o < f < hi_o]
         vmax = float(probe.src_rng[1])
         ends = [lo_o * (1 - 1e-3), lo_o, hi_o, hi_o * (1 + 1e-3)] + [x for x in (vmax / 2, vmax / 3) if lo_o < x < hi_o]
-        self.out1 = uniq(ends + awk[:max(1, n1 // 5)] + spread(cand, n1))
-        self.out2 = uniq(awk[:1] + spread(cand, n2 - 1) + [hi_o])
-        self.out3 = uniq(awk[:1] + spread(cand, n3 - 1))
-        self.outm = uniq(spread([f for f in cand if f >= 4 * lo_o] or cand, nm))
+        self.out1 = uniq(ends + awk[:max(1, z["n1"] // 5)] + spread(cand, z["n1"]))
+        typ = [f for f in OUT_TYPICAL if lo_o < f < hi_o]
+        self.out2 = uniq(awk[:1] + typ[:z["n2"] - 2] + [hi_o])
+        self.out3 = uniq(awk[:1] + typ[:z["n3"] - 1])
+        self.outm = uniq(typ[:z["nm"]])
         self.nmax = pll.nclkouts_max
 
     def input_range(self, pll):
@@ -158,17 +168,16 @@ class Grid:
             if self.tier == "thorough":
                 return list(itertools.product(MARGINS, repeat=2))
             return [(0, 0), (1e-4, 1e-4), (1e-2, 1e-2), (1e-2, 0), (0, 1e-2)]
-        uni = [tuple([m] * n) for m in MARGINS]
         if n == 3:
-            uni += [(1e-2, 1e-4, 0), (0, 1e-4, 1e-2)]
-        return uni
+            return [(1e-2, 1e-2, 1e-2), (1e-4, 1e-4, 1e-4), (1e-2, 1e-4, 0)] + ([(0, 0, 0), (0, 1e-4, 1e-2)] if self.tier == "thorough" else [])
+        return [tuple([1e-2] * n)] + ([tuple([1e-4] * n)] if self.tier == "thorough" else [])
 
     def phase_tuples(self, n):
         if not self.fam.has_phase:
             return [tuple([0] * n)]
         if n == 1:
             return [(0,), (90,)]
-        return [tuple([0] * n), tuple([0] * (n - 1) + [90])]
+        return [tuple([0] * (n - 1) + [90])]
 
     def counts(self):
         ns = [1, 2, 3] + ([self.nmax] if self.nmax > 3 else [])
@@ -183,9 +192,12 @@ class Grid:
         for fin in self.inputs:
             first = True
             for n in self.counts():
-                margins = self.margin_tuples(n) if n <= 3 else [tuple([1e-2] * n), tuple([1e-4] * n)]
+                if n >= 3 and self.z["cut"] is not None and fin > self.z["cut"]:
+                    continue
+                if n == 2 and self.z["cut2"] is not None and fin > self.z["cut2"]:
+                    continue
                 for fs in itertools.product(self.out_grid(n), repeat=n):
-                    for ms in margins:
+                    for ms in self.margin_tuples(n):
                         for ps in self.phase_tuples(n):
                             flags = ("analog",) if (first and self.fam.name == "NXPLL") else ()
                             first = False
@@ -193,14 +205,13 @@ class Grid:
 
 
 class IntelGrid(Grid):
-    """IntelClocking.compute_config costs 0.05-2 s per request (512 C values per (N, M) pair): smaller grids"""
-    SIZES = dict(quick=(2, 5, 3, 2, 2), thorough=(4, 10, 5, 3, 2))
+    """IntelClocking.compute_config costs 0.05-2 s per request (512 C values per (N, M) pair, no early exit): smaller
+    grids, and the interior input points stay <= 130 MHz (the N loop grows with fin / 5 MHz)"""
+    SIZES = dict(quick=dict(n_in=2, n1=5, n2=3, n3=2, nm=2, cut2=130e6, cut=130e6),
+                 thorough=dict(n_in=4, n1=10, n2=5, n3=3, nm=2, cut2=None, cut=130e6))
 
     def __init__(self, fam, pll, tier):
         Grid.__init__(self, fam, pll, tier)
-        # inputs above 200 MHz make the N loop long; keep both declared ends but thin the interior
-        keep = [f for f in self.inputs if f <= 130e6 or f >= pll.clkin_freq_range[1]]
-        self.inputs = keep
         self.nmax = min(self.nmax, 5)
 
     def counts(self):
@@ -249,7 +260,12 @@ def grid_for(fam, pll, tier):
     if isinstance(fam, F.Gowin1):
         return GowinGrid(fam, pll, tier)
     if isinstance(fam, F.XilinxUSPMMCM):
-        return Grid(fam, pll, tier, sizes=dict(quick=(3, 6, 4, 2, 2), thorough=(8, 12, 7, 4, 2))[tier])
+        # a refused request costs this helper 0.7 s
+        return Grid(fam, pll, tier, sizes=dict(quick=dict(n_in=1, n1=5, n2=3, n3=2, cut2=130e6, cut=130e6),
+                                               thorough=dict(n_in=4, n1=10, n2=5, n3=3, cut2=450e6, cut=260e6))[tier])
+    if getattr(pll, "clkout0_divide_range", None) is not None:
+        # fractional CLKOUT0: every refused (D, M) pair costs 1016 more divider tests
+        return Grid(fam, pll, tier, sizes=dict(quick=dict(n2=3, n3=2, cut2=260e6, cut=130e6), thorough=dict(cut2=None, cut=260e6))[tier])
     return Grid(fam, pll, tier)
 
 
